@@ -4,7 +4,7 @@ Confirms the seeded change /tmp/seed/out/<PROP>/m<k> (demo with/without), runs t
 worktree (tools/mutant_run.sh) and files it under /verif/seeded/<PROP>-m<k>/ with an extended meta.json."""
 import json, os, shutil, subprocess, sys, re
 prop, k, checks = sys.argv[1], sys.argv[2], sys.argv[3:]
-src = "/tmp/seed/out/%s/m%s" % (prop, k)
+src = os.environ.get("SEED_ROOT", "/tmp/seed/out") + "/%s/m%s" % (prop, k)
 name = "%s-m%s" % (prop, k)
 conf = json.loads(subprocess.run(["python3", "/verif/tools/seed_confirm.py", src, "--no-suite"], capture_output=True, text=True).stdout)
 print("confirm:", {x: conf.get(x) for x in ("demo_ok", "demo_without", "demo_with", "error", "unplaced")})
